@@ -11,7 +11,7 @@ open YaraModel.Re YaraModel.ReVm YaraModel.ReHexG YaraModel.ReAtoms
 
 /-- the ASTs of the grammar symbols of hex_grammar.y.  A jump (`range`) only occurs BETWEEN tokens: `tokens` begins and
     ends with a token, and so does every alternative; only the pieces of a chained string (cut at jumps of the root
-    concatenation) may begin or end with a jump. -/
+    concatenation) may begin or end with a jump.  No two jumps are adjacent (consecutive jumps are merged by the grammar). -/
 inductive Gram : Kind → Re → Prop
   | byte (b : UInt8) : Gram .tok (.lit b)
   | wild : Gram .tok .any
@@ -25,11 +25,11 @@ inductive Gram : Kind → Re → Prop
   | seq {t r} : Gram .tok t → Gram .mid r → Gram .toks (.cat t r)  -- token token | token token_sequence token
   | last {t} : Gram .tok t → Gram .mid t
   | midTok {t r} : Gram .tok t → Gram .mid r → Gram .mid (.cat t r)
-  | midJump {r} (lo hi : Nat) : lo ≤ hi → hi < 65536 → Gram .mid r → Gram .mid (.cat (.rangeAny lo hi false) r)
+  | midJump {r} (lo hi : Nat) : lo ≤ hi → hi < 65536 → noJumpHead r = true → Gram .mid r → Gram .mid (.cat (.rangeAny lo hi false) r)
   | pieceTok {t} : Gram .tok t → Gram .piece t
   | pieceJump (lo hi : Nat) : lo ≤ hi → hi < 65536 → Gram .piece (.rangeAny lo hi false)
   | pieceConsTok {t r} : Gram .tok t → Gram .piece r → Gram .piece (.cat t r)
-  | pieceConsJump {r} (lo hi : Nat) : lo ≤ hi → hi < 65536 → Gram .piece r → Gram .piece (.cat (.rangeAny lo hi false) r)
+  | pieceConsJump {r} (lo hi : Nat) : lo ≤ hi → hi < 65536 → noJumpHead r = true → Gram .piece r → Gram .piece (.cat (.rangeAny lo hi false) r)
 
 theorem maskGood_iff (m : UInt8) : maskGood m = true ↔ MaskGood m := by
   unfold maskGood MaskGood
@@ -69,14 +69,14 @@ theorem gram_sound : ∀ (r : Re) (k : Kind), gram k r = true → Gram k r := by
     | mid =>
       simp only [gram, Bool.and_eq_true, Bool.or_eq_true] at h
       rcases h.1 with hj | ht
-      · obtain ⟨lo, hi, rfl, h1, h2⟩ := isJump_inv hj
-        exact .midJump lo hi h1 h2 (ihb _ h.2)
+      · obtain ⟨lo, hi, rfl, h1, h2⟩ := isJump_inv hj.1
+        exact .midJump lo hi h1 h2 hj.2 (ihb _ h.2)
       · exact .midTok (iha _ ht) (ihb _ h.2)
     | piece =>
       simp only [gram, Bool.and_eq_true, Bool.or_eq_true] at h
       rcases h.1 with hj | ht
-      · obtain ⟨lo, hi, rfl, h1, h2⟩ := isJump_inv hj
-        exact .pieceConsJump lo hi h1 h2 (ihb _ h.2)
+      · obtain ⟨lo, hi, rfl, h1, h2⟩ := isJump_inv hj.1
+        exact .pieceConsJump lo hi h1 h2 hj.2 (ihb _ h.2)
       · exact .pieceConsTok (iha _ ht) (ihb _ h.2)
   | alt a b iha ihb =>
     intro k h
@@ -137,14 +137,14 @@ theorem gram_hexG {k : Kind} {r : Re} (h : Gram k r) :
   | last _ ih => exact ⟨ih.1, ih.2.1, ih.2.2.1, fun h => absurd rfl h, fun _ => ih.2.2.2.2 (by decide)⟩
   | midTok _ _ ih1 ih2 =>
     exact ⟨.seq ih1.1 ih2.1, .seq ih2.2.1 ih1.2.1, ⟨ih1.2.2.1, ih2.2.2.1⟩, fun h => absurd rfl h, fun _ => .seq _ (ih2.2.2.2.2 (by decide))⟩
-  | midJump lo hi h1 h2 _ ih =>
+  | midJump lo hi h1 h2 _ _ ih =>
     exact ⟨.seq (.jump lo hi h1 h2) ih.1, .seq ih.2.1 (.jump lo hi h1 h2), ⟨trivial, ih.2.2.1⟩, fun h => absurd rfl h,
       fun _ => .seq _ (ih.2.2.2.2 (by decide))⟩
   | pieceTok _ ih => exact ⟨ih.1, ih.2.1, ih.2.2.1, fun _ h => absurd rfl h, fun h => absurd rfl h⟩
   | pieceJump lo hi h1 h2 => exact ⟨.jump lo hi h1 h2, .jump lo hi h1 h2, trivial, fun _ h => absurd rfl h, fun h => absurd rfl h⟩
   | pieceConsTok _ _ ih1 ih2 =>
     exact ⟨.seq ih1.1 ih2.1, .seq ih2.2.1 ih1.2.1, ⟨ih1.2.2.1, ih2.2.2.1⟩, fun _ h => absurd rfl h, fun h => absurd rfl h⟩
-  | pieceConsJump lo hi h1 h2 _ ih =>
+  | pieceConsJump lo hi h1 h2 _ _ ih =>
     exact ⟨.seq (.jump lo hi h1 h2) ih.1, .seq ih.2.1 (.jump lo hi h1 h2), ⟨trivial, ih.2.2.1⟩, fun _ h => absurd rfl h, fun h => absurd rfl h⟩
 
 theorem mirror_eq_rev (r : Re) : mirror r = rev r := by
